@@ -344,9 +344,8 @@ var c19Preds = map[string]func(k, v int) bool{
 	"key=a":   func(k, v int) bool { return k == 0 },
 	"key!=a":  func(k, v int) bool { return k != 0 },
 	"value=1": func(k, v int) bool { return v == 1 },
-	"key=c":   func(k, v int) bool { return k == 2 },
 }
-var c19PredNames = []string{"none", "all", "key=a", "key!=a", "value=1", "key=c"}
+var c19PredNames = []string{"none", "all", "key=a", "key!=a", "value=1", "first-shown"}
 
 func flip(v int) int {
 	if v == 1 {
@@ -402,6 +401,18 @@ func c19Apply(ct *c19Cont, c any, r *c19Ref, op c19Op) {
 			r.data[op.K] = flip(v)
 		}
 	case "filter":
+		if op.P == "first-shown" {
+			// a callback with a memory: it keeps the entry it is shown first and refuses
+			// the rest - an insertion-ordered dictionary shows the oldest entry first
+			shown := 0
+			ct.filter(c, func(k, v int) bool { shown++; return shown == 1 })
+			for i, it := range r.items() {
+				if i > 0 {
+					r.del(it.K)
+				}
+			}
+			return
+		}
 		p := c19Preds[op.P]
 		ct.filter(c, p)
 		for _, it := range r.items() {
@@ -511,6 +522,9 @@ func c19Observe(ct *c19Cont, c any, r *c19Ref) (clause, detail string) {
 	if ct.find != nil {
 		for _, pn := range c19PredNames {
 			p := c19Preds[pn]
+			if p == nil {
+				continue // (the callback with a memory is a Filter matter)
+			}
 			got, ok := ct.find(c, p)
 			var w c19KV
 			wok := false
@@ -659,7 +673,7 @@ func init() {
 	Register(&Prop{
 		ID:        "C19",
 		Technique: "explicit-state BFS over (private container state, reference dictionary) pairs driven through the real methods, plus exhaustive operation sequences up to a depth bound",
-		Rule: "operations Set/Update/Delete(present and absent)/Filter(6 predicates)/Map/Map with a callback that fails at a key on three keys (one plain, two that need JSON escaping: quote+backslash+control, DEL+non-ASCII+U+2028) x values {1,2} for RuleASTNodes, ASTNodes, Constraints; Add and NewStringSet(every argument list of <=3 keys) for StringSet; after every step Len/Has/Get/GetValue/Each/EachSafe/Find/MarshalJSON are compared with an insertion-ordered dictionary; " +
+		Rule: "operations Set/Update/Delete(present and absent)/Filter(5 predicates and a callback with a memory that keeps only the entry it is shown first)/Map/Map with a callback that fails at a key on three keys (one plain, two that need JSON escaping: quote+backslash+control, DEL+non-ASCII+U+2028) x values {1,2} for RuleASTNodes, ASTNodes, Constraints; Add and NewStringSet(every argument list of <=3 keys) for StringSet; after every step Len/Has/Get/GetValue/Each/EachSafe/Find/MarshalJSON are compared with an insertion-ordered dictionary; " +
 			"states = distinct (impl dump, reference) pairs, non-trivial = histories of length >= 2",
 		Shards: func(string) int { return 16 },
 		Bounds: func(tier string) map[string]any {
